@@ -177,3 +177,51 @@ func vCount(out [][]byte, typ byte) int {
 	}
 	return n
 }
+
+// VH_C17_pubrel_two: two incoming QoS 2 exchanges with distinct symbolic message
+// IDs, sequential or interleaved (symbolic choice), both finished; then the
+// PUBREL of each is retransmitted (the client's PUBCOMP was lost), in either
+// order: every one is answered with a PUBCOMP of its own message ID - the
+// answer may not depend on which exchange the client finished last.
+func VH_C17_pubrel_two() {
+	w := vNewCW(vDefaultCfg(nil))
+	w.connect()
+	var ids [2]uint16
+	ids[0], ids[1] = vNondetU16("msgid_a"), vNondetU16("msgid_b")
+	vAssume(ids[0] != ids[1])
+	publish := func(j int) {
+		p := pkts1.NewPublish(pkts.EncodeShortTopic("ab"), vNondetBytes("payload", 1), false, 2, false, pkts1.TIT_SHORT)
+		p.SetMessageID(ids[j])
+		w.gwSends(p)
+		out := w.conn.take()
+		vAssert(vAnd(len(out) == 1, vCount(out, vtPUBREC) == 1), "C17.publish_qos2_gets_pubrec")
+	}
+	pubrel := func(j int, label string) {
+		rel := pkts1.NewPubrel()
+		rel.SetMessageID(ids[j])
+		w.gwSends(rel)
+		out := w.conn.take()
+		ok := len(out) == 1
+		if ok {
+			r := vParseSN(out[0])
+			ok = vAnd(r.OK, vAnd(r.Typ == vtPUBCOMP, r.MsgID == ids[j]))
+		}
+		vAssert(ok, label)
+	}
+	interleaved := vChoose(2) == 1
+	publish(0)
+	if interleaved {
+		publish(1)
+	}
+	pubrel(0, "C17.pubrel_answered")
+	if !interleaved {
+		publish(1)
+	}
+	pubrel(1, "C17.pubrel_answered")
+	first := vChoose(2)
+	vReach("C17.repeated_pubrel_after_other_exchange")
+	pubrel(first, "C17.repeated_pubrel_answered")
+	pubrel(1-first, "C17.repeated_pubrel_answered")
+	// and once more for the one answered first (its exchange is two exchanges back now)
+	pubrel(first, "C17.repeated_pubrel_answered")
+}
